@@ -462,6 +462,38 @@ func certZoo() []ZooCert {
 	for i, der := range orderSensitiveCerts() {
 		add("order-sensitive", fmt.Sprint(i), der)
 	}
+	// (11) counts: an attribute repeated seven or eight times next to another present once or three times (an index into
+	// one list taken from the length of another), on a subscriber and on a CA certificate
+	{
+		rep := []string{"countryName", "stateOrProvinceName", "localityName", "organizationName", "organizationalUnitName", "streetAddress", "postalCode", "commonName", "organizationIdentifier", "givenName"}
+		n := 0
+		for _, a := range rep {
+			for _, b := range rep {
+				if a == b {
+					continue
+				}
+				for _, counts := range [][2]int{{7, 1}, {8, 3}} {
+					var attrs []subjAttr
+					at, bt := attrByName(a), attrByName(b)
+					for k := 0; k < counts[0]; k++ {
+						attrs = append(attrs, subjAttr{at, at.pool[k%2], at.tag})
+					}
+					for k := 0; k < counts[1]; k++ {
+						attrs = append(attrs, subjAttr{bt, bt.pool[0], bt.tag})
+					}
+					for ca := 0; ca < 2; ca++ {
+						t := leafTemplate()
+						if ca == 1 {
+							t.IsCA, t.BasicConstraintsValid, t.KeyUsage, t.ExtKeyUsage = true, true, stdx509.KeyUsageCertSign|stdx509.KeyUsageCRLSign, nil
+						}
+						t.RawSubject = rawSubject(attrs, nil)
+						issueT("subject-repeat", fmt.Sprintf("%s%dx-%s%dx-%d", a, counts[0], b, counts[1], ca), t)
+						n++
+					}
+				}
+			}
+		}
+	}
 	// (10) numeric boundaries: serial numbers whose magnitude sits at either end of every octet length the encoder
 	// accepts (a fixed-size buffer, a bit/byte conversion or a sign octet is a boundary of its own)
 	for _, bl := range boundaryBitLens {
